@@ -395,6 +395,9 @@ def _worker(args):
     mod = importlib.import_module(modname)
     fams = mod.families(opts['tier'], opts['seed'])
     fam = fams[idx]
+    if opts.get('twin'):
+        # planted-defect twin: an in-memory mutant of an anchored function; /repo is never touched
+        mod.TWINS[opts['twin']][1]()
     try:
         return explore(fam, tier=opts['tier'], budget_s=fam.budget_s or opts['budget_s'], timeout_ms=fam.timeout_ms or opts['timeout_ms'],
                        slow_ms=opts['slow_ms'])
@@ -491,11 +494,39 @@ def main_check(prop, modname, tier, seed, level_note, bounds, outside_claim, ass
                 slow_ms=getattr(mod, 'SLOW_MS', {}).get(tier, 15000 if tier == 'quick' else 60000))
     jobs = jobs or min(16, os.cpu_count() or 4)
     results = schedule(modname, fams, idxs, opts, jobs)
+    twins = run_twins(mod, modname, fams, opts, jobs) if not only else []
     results.sort(key=lambda r: r['family'])
     extra = None
     if extra_hook is not None:
         extra = extra_hook(tier, seed)
+    if twins:
+        extra = extra or {}
+        extra.setdefault('coverage', {})['planted_defect_twins'] = twins
+        missed = [t['name'] for t in twins if not t['detected']]
+        if missed:
+            extra.setdefault('errors', []).append('planted-defect twin(s) not detected (vacuous harness?): %s' % missed)
     return finish(prop, tier, seed, results, t0, level_note, bounds, outside_claim, assumptions, extra)
+
+
+def run_twins(mod, modname, fams, opts, jobs):
+    """vacuity guard: re-run one family per twin with an in-memory mutant of the code under test; the run must end in a
+    replayed violation"""
+    tw = getattr(mod, 'TWINS', None)
+    if not tw:
+        return []
+    out = []
+    for name, (pattern, _patch) in tw.items():
+        idx = next((i for i, f in enumerate(fams) if re.search(pattern, f.fid)), None)
+        if idx is None:
+            out.append(dict(name=name, detected=False, note='no family matches %s' % pattern))
+            continue
+        o2 = dict(opts)
+        o2['twin'] = name
+        r = schedule(modname, fams, [idx], o2, 1)[0]
+        hits = [v for v in r['violations'] if v.get('replayed')]
+        out.append(dict(name=name, family=fams[idx].fid, detected=bool(hits), violation=hits[0]['sig'] if hits else None,
+                        params=hits[0].get('params') if hits else None))
+    return out
 
 
 def finish(prop, tier, seed, results, t0, level_note, bounds, outside_claim, assumptions, extra=None):
